@@ -16,6 +16,7 @@ from .core import (SInt, SBool, Unsupported, cur, as_int_term, as_bool_term, fre
                    py_floordiv, py_mod, is_sym)
 
 ElemSort = z3.DeclareSort("Elem")
+INT2ELEM = z3.Function("int2elem", z3.IntSort(), ElemSort)
 _buf_ids = itertools.count(1)
 
 
@@ -101,6 +102,10 @@ _elem_consts = {}
 
 def ELEM_CONST(v):
     """interpreted-constant embedding into the abstract element sort (0, 1, ...)"""
+    if isinstance(v, (bool, _np.bool_)):
+        v = int(v)
+    if isinstance(v, (int, _np.integer)):
+        return INT2ELEM(z3.IntVal(int(v)))
     k = repr(v)
     if k not in _elem_consts:
         _elem_consts[k] = z3.Const(f"elem_{k}", ElemSort)
@@ -204,8 +209,6 @@ def coerce_term(t, kind):
     if kind == "bool" and k == "int":
         return t != 0
     if kind == "elem" and k == "int":
-        if z3.is_int_value(t):
-            return ELEM_CONST(t.as_long())
         return INT2ELEM(t)
     if kind == "elem" and k == "bool":
         return z3.If(t, ELEM_CONST(1), ELEM_CONST(0))
@@ -220,7 +223,6 @@ def coerce_term(t, kind):
     raise Unsupported(f"coercion {k} -> {kind}")
 
 
-INT2ELEM = z3.Function("int2elem", z3.IntSort(), ElemSort)
 ELEM_TRUTH = z3.Function("elem_truth", ElemSort, z3.BoolSort())
 _ufuncs = {}
 
@@ -234,8 +236,12 @@ def UF(name, *sorts):
 
 class SElem:
     """symbolic scalar of the abstract element sort (a cell of a data array)"""
-    __array_ufunc__ = None
     ndim = 0
+
+    def __array_ufunc__(self, ufunc, method, *inputs, **kwargs):
+        from . import symnp
+        return symnp.dispatch_ufunc(ufunc, method, inputs, kwargs)
+
     shape = ()
     size = 1
 
@@ -280,7 +286,10 @@ class SBV:
     ndim = 0
     shape = ()
     size = 1
-    __array_ufunc__ = None
+
+    def __array_ufunc__(self, ufunc, method, *inputs, **kwargs):
+        from . import symnp
+        return symnp.dispatch_ufunc(ufunc, method, inputs, kwargs)
 
     def __init__(self, t, dtype=None):
         self.t = t
